@@ -21,6 +21,7 @@ RULE = ("case = one design translated by both backends in N fresh processes with
         "with >= 2 instances sharing a module or >= 3 parameterisations")
 ASSUMPTIONS = [
   "finite set of hash seeds / processes (4 quick, 12 thorough) - not all seeds or platforms",
+  "module bodies are compared without comments and block labels (the label of a lambda connection is derived from the instance path and is not hardware)",
   "parameter values whose str() embeds an object address (functions, plain objects) are exercised in a separate probe stream",
 ]
 
@@ -127,7 +128,8 @@ def module_bodies(text):
   """module name -> body text (without the header comment lines, the module name line kept out)"""
   out = {}
   for m in re.finditer(r"^module\s+(\S+)(.*?)^endmodule", text, re.M | re.S):
-    body = "\n".join(l for l in m.group(2).splitlines() if not l.strip().startswith("//") and l.strip())
+    # comments and block labels (a lambda connection's label carries the instance path) are not hardware
+    body = "\n".join(re.sub(r"begin\s*:\s*\w+", "begin", l) for l in m.group(2).splitlines() if not l.strip().startswith("//") and l.strip())
     out.setdefault(m.group(1), []).append(body)
   return out
 
@@ -162,6 +164,7 @@ def run_shard(sh):
   for c in range(sh.params["designs"]):
     r = sh.rng("sg", c)
     kn = dict(trcommon.TR_KNOBS); kn.update(knobs(r))
+    kn["p_lambda"] = 0      # identifiers generated for lambda connections carry the instance path (cosmetic); bodies are compared textually
     d = G.generate(r, kn)
     items.append({"type": "specgen", "design": d, "backends": ["sv", "ys"]})
     # stand-alone translation of every class of the hierarchy
